@@ -89,7 +89,80 @@ class SpecMixin:
     def ev_Call(self, e, fr, awaited=False):
         if fr.spec and isinstance(e.func, ast.Name) and e.func.id in SPEC_NAMES:
             return getattr(self, "sp_" + e.func.id)(e, fr)
+        if fr.spec and isinstance(e.func, ast.Name) and e.func.id in self.reg.specfns and e.func.id not in fr.locals:
+            return self.call_specfn(self.reg.specfns[e.func.id], [self.ev(a, fr) for a in e.args], fr)
         return super().ev_Call(e, fr, awaited=awaited)
+
+    # ------------------------------------------------------------------ recursive spec functions
+    def _specfn_sort(self, ty):
+        from .sym import PairSeq, Str, StrSeq
+
+        return {"int": z3.IntSort(), "bool": z3.BoolSort(), "str": Str, "bstr": Str, "strs": StrSeq, "bstrs": StrSeq, "hdrs": PairSeq}[ty]
+
+    def _specfn_term(self, v, ty):
+        from .sym import PairSeq, StrSeq, str_to_z3
+
+        if ty == "int":
+            return z3_of_int(v)
+        if ty == "bool":
+            return ops.z3_of_bool(v)
+        if ty in ("str", "bstr"):
+            return str_to_z3(v)
+        if isinstance(v, (list, tuple)) and not v or (isinstance(v, PList) and v.sym is None and not v.items):
+            return z3.Empty(PairSeq if ty == "hdrs" else StrSeq)
+        return ops.to_seq(self.ctx, v).e
+
+    def _specfn_wrap(self, t, ty):
+        from .sym import SymSeq, mk_str
+
+        if ty == "int":
+            return mk_int(t)
+        if ty == "bool":
+            return mk_bool(t)
+        if ty == "str":
+            return mk_str(t, "str")
+        if ty == "bstr":
+            return mk_str(t, "bytes")
+        return PList(sym=SymSeq(t, {"strs": "str", "bstrs": "bstr", "hdrs": "pair"}[ty]))
+
+    def call_specfn(self, sf, args, fr):
+        names = [p.split(":")[0] for p in sf["params"]]
+        types = [p.split(":")[1] for p in sf["params"]]
+        if len(args) != len(names):
+            raise ContractError(f"spec function {sf['name']} takes {len(names)} arguments")
+        ri = names.index(sf["rec"])
+        n = args[ri]
+
+        def body(which, n_val):
+            f2 = Frame(f"specfn:{sf['name']}", fr.module, spec=True)
+            f2.locals.update(dict(zip(names, args)))
+            f2.locals[sf["rec"]] = n_val
+            f2.old = fr.old
+            return self.ev(sf[which], f2)
+
+        if isinstance(n, int) and not isinstance(n, bool):
+            return body("base", n) if n <= 0 else body("step", n)
+        terms = [self._specfn_term(a, t) for a, t in zip(args, types)]
+        F = z3.Function("spec_" + sf["name"], *[t.sort() for t in terms], self._specfn_sort(sf["returns"]))
+        app = F(*terms)
+        done = self.ctx.__dict__.setdefault("specfn_unfolded", set())
+        key = (sf["name"],) + tuple(z3.simplify(t).get_id() for t in terms)
+        # the defining equation is only needed where something is proved about the application
+        # (assumed clauses -- a callee's postcondition, an invariant at a loop head -- just mention it)
+        if key not in done and not getattr(self, "_specfn_depth", 0) and getattr(self, "qmode", "prove") == "prove":
+            done.add(key)
+            self.ctx.__dict__.setdefault("specfn_keep", []).append(terms)  # keep ids alive
+            self._specfn_depth = 1
+            try:
+                nz = z3_of_int(n)
+                b = self._specfn_term(body("base", n), sf["returns"])
+                st = self._specfn_term(body("step", n), sf["returns"])
+            finally:
+                self._specfn_depth = 0
+            self.ctx.assume(z3.Implies(nz <= 0, app == b), f"definition of {sf['name']} (base)")
+            self.ctx.assume(z3.Implies(nz > 0, app == st), f"definition of {sf['name']} (step)")
+            self.ctx.assumptions_used.add(f"spec function {sf['name']} is defined by recursion on {sf['rec']}: base `{sf['base_text']}`, step `{sf['step_text']}` (definitional axioms, unfolded once per application)")
+        return self._specfn_wrap(app, sf["returns"])
 
     def _b(self, v):
         t = ops.truth(self.ctx, v)
@@ -494,7 +567,7 @@ class SpecMixin:
         if isinstance(v, SymOpt):
             v = v.value
         seq = ops.to_seq(self.ctx, v)
-        f = z3.Function("any_over", seq.e.sort(), z3.BoolSort())
+        f = z3.Function("any_over[_x.lower() == 'upgrade']", seq.e.sort(), z3.BoolSort())
         return mk_bool(f(seq.e))
 
     def sp_has_header(self, e, fr):
